@@ -122,7 +122,9 @@ func openWAL(cfg simcore.Op, path string) (*cs.BaseWAL, error) {
 		return nil, err
 	}
 	w.SetLogger(log.NewNopLogger())
-	w.SetFlushInterval(time.Duration(cfg.Int("flush_ms")) * time.Millisecond)
+	// +7ns: the flush ticker and the group's check ticker must never fire at the same fake
+	// instant (two goroutines woken together would run in an order the simulator does not own)
+	w.SetFlushInterval(time.Duration(cfg.Int("flush_ms"))*time.Millisecond + 7)
 	return w, nil
 }
 
